@@ -54,6 +54,10 @@ type Term struct {
 	u uint64
 	b *big.Int
 	f float64
+	// three-way comparison result (-1/0/+1 as BV64): lt / gt are the conditions for -1 / +1.
+	triLt, triGt *Term
+	// Int shadow: an Int-sorted term equal to the unsigned (ivU) reading of this bit-vector.
+	ivU *Term
 }
 
 func (t *Term) String() string { return t.s }
@@ -269,6 +273,11 @@ func (tb *TB) Eq(a, b *Term) *Term {
 	if a.s == b.s {
 		return tTrue
 	}
+	if a.S.K == KBV && (a.ivU != nil || b.ivU != nil) {
+		if x, y := shadowU(a), shadowU(b); x != nil && y != nil {
+			return tb.mk(SBool, "=", x, y)
+		}
+	}
 	return tb.mk(SBool, "=", a, b)
 }
 
@@ -401,9 +410,24 @@ func (tb *TB) BVShr(a, n *Term, signed bool) *Term {
 	return tb.mk(a.S, "bvlshr", a, n)
 }
 
+func shadowU(t *Term) *Term {
+	if t.ivU != nil {
+		return t.ivU
+	}
+	if t.c {
+		return IntConst(new(big.Int).SetUint64(t.u))
+	}
+	return nil
+}
+
 func (tb *TB) BVLt(a, b *Term, signed bool) *Term {
 	if a.S != b.S {
 		panic(fmt.Sprintf("bvlt sort mismatch %v %v", a.S, b.S))
+	}
+	if !signed && (a.ivU != nil || b.ivU != nil) {
+		if x, y := shadowU(a), shadowU(b); x != nil && y != nil {
+			return tb.ILt(x, y)
+		}
 	}
 	if a.c && b.c {
 		if signed {
@@ -417,6 +441,11 @@ func (tb *TB) BVLt(a, b *Term, signed bool) *Term {
 	return tb.mk(SBool, "bvult", a, b)
 }
 func (tb *TB) BVLe(a, b *Term, signed bool) *Term {
+	if !signed && (a.ivU != nil || b.ivU != nil) {
+		if x, y := shadowU(a), shadowU(b); x != nil && y != nil {
+			return tb.ILe(x, y)
+		}
+	}
 	if a.c && b.c {
 		if signed {
 			return BoolT(sext64(a.u, a.S.W) <= sext64(b.u, a.S.W))
@@ -576,6 +605,9 @@ func (tb *TB) BV2Int(a *Term, signed bool) *Term {
 			return IntConst64(sext64(a.u, w))
 		}
 		return IntConst(new(big.Int).SetUint64(a.u))
+	}
+	if a.ivU != nil && !signed {
+		return a.ivU
 	}
 	n := tb.mk(SInt, "bv2nat", a)
 	if !signed {
